@@ -117,8 +117,10 @@ def extract(repo, work):
     ucfg = ofxget.UserConfig()
     if ucfg.default_section != default_section:
         problems.append("UserConfig.default_section differs from configparser.DEFAULTSECT")
-    if type(ucfg._interpolation).__name__ != "BasicInterpolation":
-        problems.append(f"UserConfig interpolation is {type(ucfg._interpolation).__name__}, the model assumes BasicInterpolation")
+    for cls in (ofxget.UserConfig, ofxget.LibraryConfig):
+        if type(cls()._interpolation) is not configparser.Interpolation:
+            problems.append(f"{cls.__name__} interpolation is {type(cls()._interpolation).__name__}, the model assumes "
+                            f"interpolation=None (values stored and read verbatim)")
     if ucfg.optionxform("AbC") != "abc":
         problems.append("UserConfig.optionxform is not str.lower")
 
@@ -132,7 +134,6 @@ def extract(repo, work):
     L.append("  defaults := [" + ",\n    ".join(f"({lean_str(k)}, {lean_val(v, problems, 'DEFAULTS.' + k)})" for k, v in defaults) + "]")
     L.append("  configurable := [" + ",\n    ".join(f"({lean_str(k)}, CfgTy.{t})" for k, t in configurable) + "]")
     L.append("  booleanStates := [" + ", ".join(f"({lean_str(k)}, {'true' if v else 'false'})" for k, v in bool_states) + "]")
-    L.append(f"  maxInterpDepth := {int(max_depth)}")
     L.append(f"  defaultSection := {lean_str(default_section)}")
     L.append("  commands := [" + ", ".join(lean_str(c) for c in commands) + "]")
     rows = []
@@ -140,6 +141,8 @@ def extract(repo, work):
         rows.append(f"({lean_str(cmd)}, [" + ", ".join(
             f"({lean_str(k)}, {lean_val(v, problems, f'argparse {cmd}.{k}')})" for k, v in ns) + "])")
     L.append("  argDefaults := [" + ",\n    ".join(rows) + "]")
+    L.append("  acctTypes := [" + ", ".join(lean_str(c) for c in models.bank.stmt.ACCTTYPES) + "]")
+    L.append("  svcStatuses := [" + ", ".join(lean_str(c) for c in models.common.SVCSTATUSES) + "]")
     L.append("\nend Ofx.Generated\n")
 
     twin = {
